@@ -258,6 +258,47 @@ Proof.
   exact (LatParMain.par_lat_run_closed I H1 islat lle jm H2 arities H3 P H4 H5 pl H6 H7 Rin H8 st H9).
 Qed.
 
+(* at EVERY iteration start a parallel run can reach (any number of completed SCCs, any number of parallel iterations of the next one -
+   what a run stopped by a deadline leaves behind): the rows are below every directed closed set above the input, one row per key *)
+Theorem c02_par_lat_sound_at_every_iteration :
+  forall (V : Type) (I : LatSyntax.linterp V) islat lle jm arities P pl Rin (J : LatSem.db) pre sc rest st T2 D2 R2,
+  LatSyntax.veqb_ok I -> (forall r, islat r = true -> LatSem.lat_laws (lle r) (jm r)) ->
+  arities_functional arities -> no_agg P = true -> LatSem.monotone_program I islat lle P ->
+  validate arities P pl = true -> LatPlan.lat_plan_ok islat arities pl = true ->
+  LatMain.input_ok I islat lle arities Rin ->
+  LatSem.directed I islat lle J -> LatSem.closedH I islat lle P J -> (forall r row, In row (Rin r) -> LatSem.below I islat lle J (r, row)) ->
+  pl = pre ++ sc :: rest ->
+  LatParModel.par_lat_run_sccs I islat jm pre (LatEval.update_indices Rin) st ->
+  LatParModel.par_lat_loop_reach I islat jm sc (LatEval.l_stored st) (fun _ => []) (fun r => if is_dyn (s_dyn sc) r then LatEval.l_stored st r else [])
+                                 (LatEval.l_rows st) T2 D2 R2 ->
+  (forall r row, In row (R2 r) -> LatSem.below I islat lle J (r, row))
+  /\ (forall r, islat r = true -> NoDup (map LatSyntax.tkey (R2 r)))
+  /\ (forall r i, is_dyn (s_dyn sc) r = true -> (i < length (R2 r))%nat -> In i (T2 r) \/ In i (D2 r)).
+Proof.
+  intros V I islat lle jm arities P pl Rin J pre sc rest st T2 D2 R2 H1 H2 H3 H4 H5 H6 H7 H8 HJ1 HJ2 HJ3 H9 H10 H11.
+  exact (LatParMain.par_lat_intermediate I H1 islat lle jm H2 arities H3 P H4 H5 pl H6 H7 Rin H8 J pre sc rest st T2 D2 R2 HJ1 HJ2 HJ3 H9 H10 H11).
+Qed.
+
+(* no deadlock anywhere in a parallel run: in every state of every iteration a run can reach - ANY contributions, ANY global schedule -
+   a lattice relation whose head updates are not finished has a worker that can perform a step *)
+Theorem c02_par_lat_no_deadlock :
+  forall (V : Type) (I : LatSyntax.linterp V) islat lle jm arities P pl Rin pre sc rest st T2 D2 R2 (mx : rel -> list V -> nat) kfirst work sched r,
+  LatSyntax.veqb_ok I -> (forall r, islat r = true -> LatSem.lat_laws (lle r) (jm r)) ->
+  arities_functional arities -> no_agg P = true -> LatSem.monotone_program I islat lle P ->
+  validate arities P pl = true -> LatPlan.lat_plan_ok islat arities pl = true ->
+  LatMain.input_ok I islat lle arities Rin ->
+  pl = pre ++ sc :: rest ->
+  LatParModel.par_lat_run_sccs I islat jm pre (LatEval.update_indices Rin) st ->
+  LatParModel.par_lat_loop_reach I islat jm sc (LatEval.l_stored st) (fun _ => []) (fun r => if is_dyn (s_dyn sc) r then LatEval.l_stored st r else [])
+                                 (LatEval.l_rows st) T2 D2 R2 ->
+  LatParModel.latdyn islat sc r = true ->
+  ParLat.finished (LatParModel.grun I jm T2 D2 R2 mx kfirst (LatParModel.ginit I R2 work) sched r) = false ->
+  exists j, ParLat.enabled (mx r) (LatParModel.grun I jm T2 D2 R2 mx kfirst (LatParModel.ginit I R2 work) sched r) j = true.
+Proof.
+  intros V I islat lle jm arities P pl Rin pre sc rest st T2 D2 R2 mx kfirst work sched r H1 H2 H3 H4 H5 H6 H7 H8 H9 H10 H11 H12 H13.
+  exact (LatParMain.par_lat_run_no_deadlock I H1 islat lle jm H2 arities H3 P H4 H5 pl H6 H7 Rin H8 pre sc rest st T2 D2 R2 mx kfirst work sched r H9 H10 H11 H12 H13).
+Qed.
+
 (* non-vacuity: d(y, v) <-- d(x, v), e(x, y) over Dual<u32> with the plan the real macro dumps for it (one looping SCC, a
    reorderable simple join): the hypotheses hold, and there is a TWO-WORKER run of two iterations in which worker 1 reads row 1
    after worker 0 has raised it (it observes an intermediate value) - ending in d = {0 -> 3, 1 -> 3}, as the serial model does *)
@@ -284,9 +325,9 @@ Proof.
 Qed.
 
 (* SCOPE of the lattice engine theorems: programs without aggregation (the hypothesis no_agg, as in C03; aggregates over parallel
-   lattice relations are C04 / C05's subject and are exercised through ascent_par! by the tie only); a run that ENDS (per iteration
-   every reachable state of the head updates can be completed: c02_lattice_can_finish; termination of the SCC loop is a property
-   of the program, e.g. finite lattice height, not of the engine).  The outcome of the head update of a PLAIN relation inside such a
+   lattice relations are C04 / C05's subject and are exercised through ascent_par! by the tie only); a run that ENDS (no state of the head updates is a deadlock: c02_par_lat_no_deadlock, and
+   per iteration every reachable state of them can be completed: c02_lattice_can_finish; termination of the SCC loop is a property of
+   the program, e.g. finite lattice height, not of the engine).  The outcome of the head update of a PLAIN relation inside such a
    program is taken from c02_iteration_schedule_independent (new rows = the derived facts absent from total / delta, each once): it
    is part of the model LatParModel.par_lat_iteration, not re-derived from ParStep's steps over the lattice engine's value universe.
    RESIDUE that no model can exhibit: the relational model is tied to the real ascent_par! binaries by sampling only (C03's programs
@@ -302,4 +343,5 @@ Print Assumptions c02_lattice_can_finish. Print Assumptions c02_lattice_example.
 Print Assumptions c02_lattice_new_views_agree. Print Assumptions c02_lattice_new_lists_rows.
 Print Assumptions c02_par_lat_run_least_fixed_point. Print Assumptions c02_par_lat_run_one_row_per_key. Print Assumptions c02_par_lat_run_inputs_raised.
 Print Assumptions c02_par_lat_equals_serial. Print Assumptions c02_par_lat_run_sound. Print Assumptions c02_par_lat_run_closed_at_exit.
+Print Assumptions c02_par_lat_sound_at_every_iteration. Print Assumptions c02_par_lat_no_deadlock.
 Print Assumptions c02_par_lat_example_hypotheses. Print Assumptions c02_par_lat_example_run.
